@@ -13,11 +13,15 @@ LEVEL_TEXT = ("C16_order_no_deadlock: discipline D (no re-acquisition; rank incr
               "gate holders) excludes every all-blocked state, with blocked = Go RWMutex semantics incl. pending-writer preference. C16_edges_ok/C16_edges_sound: every "
               "acquisition site of server.go/path_tree.go/handlers.go (transitively through calls/closures) satisfies D. C16_guarded: every access to the shared maps "
               "holds its mutex. C16_isolation_frame (+ _partial instance): disjoint clients' replies are independent of the interleaving.")
-LEVEL_NOTE = ("Data-race freedom and 'no runtime abort' are runtime notions: what is proved is lock discipline on the generated tables; `go test -race` runs of the "
-              "workload are supporting evidence (thorough tier). The depth ranks of opMu/childMu assume the path tree does not change shape while a nested "
+LEVEL_NOTE = ("Data-race freedom and 'no runtime abort' are runtime notions: what is proved is lock discipline on the generated tables (8 guarded maps incl. aliases, "
+              "fidRef.opened); the clause 'no data race reported by the race detector' rests on `go test -race` runs of the workload in EVERY tier (supporting evidence, "
+              "4 runs quick / 25 thorough) and of the qids.Mapper test; other shared fields (pathNode.deleted, fidRef.refs via atomics, mode/openFlags/pendingXattr) are covered by the race runs only. "
+              "DELEGATION: the wait/notify half of 'no lost wake-up' (Tflush waiting for a tag, ClearTag closing the channel, stop() waiting for pendingWg) is decided by "
+              "C06/C14's model and checks; C16's model has locks only (wait_ok: waits hold no lock) and observes the symptom end to end (Tflush traffic in the workload, issued == answered). "
+              "C16_no_deadlock_sites is a FRAGMENT theorem (each thread runs the plan of ONE site); the lift to whole handler runs is not proved.  The depth ranks of opMu/childMu assume the path tree does not change shape while a nested "
               "acquisition is in progress (renames hold renameMu for writing). Isolation: the Coq instance is a path store without cross-subtree rename (_partial); "
               "the real server is covered by the concurrent-vs-alone differential. Trusted: go2coq LockGen, the lock semantics of Locks/Locks.v, the harness backend.")
-DESIGN_REF = "6/C16"
+DESIGN_REF = "6/C16 (wait/notify part of 'no lost wake-up': 6/C06, 6/C14)"
 ASSUMPTIONS = [
     "backend calls return (a blocked backend blocks only requests the File contract allows it to block)",
     "sync.Mutex/RWMutex: mutual exclusion, writer preference as modelled; sync/atomic and channels are sequentially consistent",
@@ -28,7 +32,8 @@ TRUSTED_BASE = [
     "Coq 8.16.1 kernel, vm_compute (table checks, cases evaluation)",
     "axioms: none (Print Assumptions: closed under the global context)",
     "go2coq LockGen (tools/go2coq/lockgen.go, lockgen_interp.go)",
-    "harness: harness/p9/vhgate_backend_test.go (in-memory path FS with monitor), c16_workload_test.go; the p9 client as driver; Go race detector (supporting)",
+    "harness: harness/p9/vhgate_backend_test.go (in-memory path FS with monitor), c16_workload_test.go, harness/fsimpl/qids/c16_mapper_test.go; the p9 client as driver; Go race detector (supporting)",
+    "props/C16.py to_case(): numbering of nodes/handles of the monitor log, translation to Coq cases",
 ]
 
 FILES = ["vh_common_test.go", "vhgate_backend_test.go", "c16_workload_test.go"]
@@ -99,11 +104,14 @@ def report(ctx, obs, P, tag=""):
 def run(ctx):
     # one test binary for the workload and the targeted probes; the qids.Mapper test (other package) runs beside it
     from concurrent.futures import ThreadPoolExecutor
-    with ThreadPoolExecutor(max_workers=2) as ex:
+    with ThreadPoolExecutor(max_workers=3) as ex:
         f1 = ex.submit(ctx.gotest, "p9", "^TestVerifC16(Stall|RenameDisconnect|Probes)?$", FILES, None, 1500)
-        f4 = ex.submit(ctx.gotest, "fsimpl/qids", "^TestVerifC16Mapper$", ["c16_mapper_test.go"], None, 300, ctx.thorough)
+        f4 = ex.submit(ctx.gotest, "fsimpl/qids", "^TestVerifC16Mapper$", ["c16_mapper_test.go"], None, 300, True)
+        # the data-race clause: the same workload under the Go race detector, in every tier (supporting evidence)
+        f2 = ex.submit(ctx.gotest, "p9", "^TestVerifC16Race$", FILES, {"VERIF_C16_RUNS": 25 if ctx.thorough else 4}, 2400, True)
         rc, out, allobs = f1.result()
         rc4, out4, obs4 = f4.result()
+        rc2, out2, obs2 = f2.result()
     obs = [o for o in allobs if o.get("kind") in ("log", "iso", "answered")]
     obs3 = [o for o in allobs if o.get("kind") in ("stall", "renamedisc", "probe")]
     if rc != 0 or not obs:
@@ -134,18 +142,17 @@ def run(ctx):
         ctx.violation("C16:mapper", "qids.Mapper used from concurrent requests: runtime abort / data race / inconsistent QID paths", {"output": out4[:3000], "obs": mp})
     elif rc4 != 0 or not mp:
         ctx.harness_broken("harness TestVerifC16Mapper failed (rc=%d)" % rc4, out4)
-    race = None
-    if ctx.thorough:
-        # supporting evidence only: the same workload under the race detector (needs cgo)
-        rc2, out2, obs2 = ctx.gotest("p9", "^TestVerifC16$", FILES, timeout=2400, race=True, env={"VERIF_C16_RUNS": 25})
-        races = out2.count("WARNING: DATA RACE")
-        race = {"rc": rc2, "data_races": races, "runs": len([o for o in obs2 if o["kind"] == "answered"])}
-        if races:
-            ctx.violation("C16:race", "the Go race detector reported %d data race(s) in the concurrent workload" % races, {"output": out2[:6000]})
-        elif rc2 != 0:
-            ctx.note("race-detector run failed to run (rc=%d): %s" % (rc2, out2[-300:]))
-        if obs2:
-            report(ctx, obs2, evaluate(ctx, "C16_race_cases", obs2), tag=":race-run")
+    races = out2.count("WARNING: DATA RACE")
+    race = {"rc": rc2, "data_races": races, "runs": len([o for o in obs2 if o["kind"] == "answered"])}
+    if races:
+        ctx.violation("C16:race", "the Go race detector reported %d data race(s) in the concurrent workload" % races, {"output": out2[:6000]})
+    elif rc2 != 0 or not obs2:
+        if "concurrent map" in out2 or "fatal error" in out2:
+            ctx.violation("C16:abort", "runtime abort in the concurrent workload (race-detector run)", {"output": out2[-3000:]})
+        else:
+            ctx.harness_broken("race-detector run of the workload failed (rc=%d)" % rc2, out2)
+    if obs2:
+        report(ctx, obs2, evaluate(ctx, "C16_race_cases", [o for o in obs2 if o["kind"] != "log"]), tag=":race-run")
     nev = sum(len(o.get("events") or []) for o in obs if o["kind"] == "log")
     iso = [o for o in obs if o["kind"] == "iso"]
     ctx.coverage.update({
@@ -162,7 +169,7 @@ def run(ctx):
 
 
 def search(ctx):
-    if ctx.thorough:
+    if ctx.thorough or (getattr(ctx, "search_budget_s", None) is not None and ctx.search_budget_s < 300):
         return
     ctx.tier = "thorough"
     ctx.thorough = True
